@@ -369,6 +369,45 @@ impl Deviation {
     }
 }
 
+/// A valid variant of a valid image without DIFAT sectors: one spare DIFAT sector, all of its
+/// slots free, appended at the end of the file, marked DIFSECT in the FAT, named and counted in
+/// the header - spare capacity as another writer might reserve it.  None if the image already
+/// has DIFAT sectors, has no FAT cell for one more sector, or the result does not pass the
+/// independent checker.
+pub fn add_spare_difat_sector(image: &[u8]) -> Option<Vec<u8>> {
+    let p = imgck::check(image);
+    if p.fatal.is_some() || !p.violations.is_empty() {
+        return None;
+    }
+    let l = &p.layout;
+    if !l.difat_sectors.is_empty() || l.sector_len < 512 {
+        return None;
+    }
+    let new_id = l.num_sectors;
+    let per = l.sector_len / 4;
+    let fat_sector = *l.fat_sectors.get(new_id as usize / per)?;
+    let cell_off = imgck::sector_offset(l, fat_sector) + 4 * (new_id as usize % per);
+    let mut out = image.to_vec();
+    if out.len() != imgck::sector_offset(l, new_id) || cell_off + 4 > out.len() {
+        return None;
+    }
+    if out[cell_off..cell_off + 4] != FREESECT.to_le_bytes() {
+        return None;
+    }
+    out[cell_off..cell_off + 4].copy_from_slice(&DIFSECT.to_le_bytes());
+    let mut sec = vec![0xFFu8; l.sector_len];
+    let n = sec.len();
+    sec[n - 4..].copy_from_slice(&ENDOFCHAIN.to_le_bytes());
+    out.extend_from_slice(&sec);
+    out[68..72].copy_from_slice(&new_id.to_le_bytes());
+    out[72..76].copy_from_slice(&1u32.to_le_bytes());
+    let q = imgck::check(&out);
+    if q.fatal.is_some() || !q.violations.is_empty() || q.layout.difat_sectors.len() != 1 {
+        return None;
+    }
+    Some(out)
+}
+
 fn le32(v: u32) -> Vec<u8> {
     v.to_le_bytes().to_vec()
 }
@@ -402,9 +441,11 @@ pub fn deviations(img: &[u8], l: &Layout) -> Vec<Deviation> {
     // 2. zero-padded DIFAT tail (only DIFAT sectors carry padding the library strips)
     if !l.difat_sectors.is_empty() {
         let used = l.fat_sectors.len();
-        if l.difat.len() > used && used >= 109 {
+        // (zeros are tolerated in DIFAT sectors only, never in the header's 109 slots; with a spare
+        // DIFAT sector the padding starts at its first slot although fewer than 109 slots are used)
+        if l.difat.len() > used.max(109) {
             let mut edits = vec![];
-            for i in used..l.difat.len() {
+            for i in used.max(109)..l.difat.len() {
                 if let Some(off) = imgck::difat_slot_offset(l, i) {
                     edits.push((off, le32(0)));
                 }
